@@ -104,10 +104,11 @@ func (m *Manager) getEnabledOrPendingKeyVersion(ctx context.Context, parent stri
 				version = v
 			}
 		}
-		if len(vers.GetCryptoKeyVersions()) < keyPageSize {
+		// A page may be short and still be followed by more; only an empty token ends the listing.
+		pageToken = vers.GetNextPageToken()
+		if pageToken == "" {
 			break
 		}
-		pageToken = vers.GetNextPageToken()
 	}
 	if version == nil {
 		return nil, ErrNoKeyVersions
